@@ -304,8 +304,8 @@ def check(src, rep):
         rep.violation("R3", f"{MOD}.SmartMeterBaseProtocol.__init__", "selection-in-constructor", "a reader is selected in the constructor, before it has produced a valid message: its messages are forwarded "
                       "without the selection pass (invalid messages before the first valid one reach the queue)", file, init_writes[-1].lineno if init_writes else B.node.lineno)
     # the candidate field: iterated by data_received (or a helper) and filled by the constructor from one of its parameters
-    iterated = {n.iter.attr for name in reach for n in ast.walk(B.methods[name].node)
-                if isinstance(n, (ast.For, ast.comprehension)) and isinstance(n.iter, ast.Attribute) and isinstance(n.iter.value, ast.Name) and n.iter.value.id == "self"}
+    iterated = {a.attr for name in reach for n in ast.walk(B.methods[name].node) if isinstance(n, (ast.For, ast.comprehension))
+                for a in ast.walk(n.iter) if isinstance(a, ast.Attribute) and isinstance(a.value, ast.Name) and a.value.id == "self"}  # (also through list(...), a slice, enumerate(...))
     try:
         init_paths = [p for p in Engine(M, split_ifexp=True).run(init_fn) if p.status in ("run", "return")] if init_fn else []
     except Exception as ex_:  # Unsupported
